@@ -137,7 +137,7 @@ Lemma poll_spec fuel : forall x rd W, Inv x W -> nonempty_segs rd -> need (fstat
       Inv x' (W ++ avail rd) /\ fstate x' = Idle /\ segs rd' = [] /\ ~ ended rd' /\ flags_same rd rd'
   | (FEnd, x', rd') =>
       (Inv x' (W ++ avail rd) /\ fstate x' = Idle /\ segs rd' = [] /\ ended rd' /\ flags_same rd rd') \/
-      (dead (W ++ avail rd) /\ flags_same rd rd')
+      (dead (W ++ avail rd) /\ flags_same rd rd' /\ nonempty_segs rd' /\ exists W', Inv x' W')
   | _ => False
   end.
 Proof.
@@ -167,7 +167,7 @@ Proof.
       destruct (fpoll fuel x1 rd1) as [[o x'] rd']. destruct o; try exact IH.
       * destruct IH as [W' [H1 [H2 [[H3 H4] H5]]]]. exists W'. unfold flags_same. rewrite H3, H4. auto.
       * destruct IH as [H1 [H2 [H3 [H4 [H5 H6]]]]]. unfold flags_same. rewrite H5, H6. auto 10.
-      * destruct IH as [[H1 [H2 [H3 [H4 [H5 H6]]]]]|[H [H5 H6]]]; [left|right]; unfold flags_same; rewrite H5, H6; auto 10.
+      * destruct IH as [[H1 [H2 [H3 [H4 [H5 H6]]]]]|[H [[H5 H6] H7]]]; [left|right]; unfold flags_same; rewrite H5, H6; auto 10.
     + destruct Hr as [-> [Hs Hen]]. unfold avail. rewrite Hs. cbn [concat]. rewrite app_nil_r.
       split; [|unfold flags_same; auto]. exists (chunk_of x). cbn [buf size fstate]. auto.
     + destruct Hr as [-> [Hs Hen]]. left. unfold avail. rewrite Hs. cbn [concat]. rewrite app_nil_r.
@@ -190,7 +190,8 @@ Proof.
         apply (rel_insufficient h T k Ev). }
       assert (Hf1 : need (fstate x1) rd <= N.of_nat fuel) by (unfold need in *; subst x1; cbn [fstate]; lia).
       exact (IH x1 rd (h :: T) HI1 Hne Hf1).
-    + right. split; [apply (rel_bad h T k (avail rd) Ev)|unfold flags_same; auto].
+    + right. split; [apply (rel_bad h T k (avail rd) Ev)|]. split; [unfold flags_same; auto|]. split; [exact Hne|].
+      exists (h :: T), k. rewrite Est. auto.
     + exact (vdec_no_panic _ Ev).
   - (* ReadPacketData *)
     destruct Hst as [Hs1 [v [l [Hv Hp]]]].
@@ -264,7 +265,7 @@ Proof.
   - inversion Hd; subst. destruct Hp as [[HI1 [Hst [Hs [Hen Hfl]]]]|Hdead].
     + exists (W ++ avail rd). split; [|auto].
       apply FramesStop. destruct HI1 as [k [_ [_ Hm]]]. rewrite Hst in Hm. exact Hm.
-    + destruct Hdead as [Hdead Hfl]. exists (W ++ avail rd).
+    + destruct Hdead as [Hdead [Hfl _]]. exists (W ++ avail rd).
       split; [apply FramesStop; specialize (Hdead []); rewrite app_nil_r in Hdead; exact Hdead|].
       split; [exact Hfl|right; exact Hdead].
 Qed.
